@@ -46,7 +46,7 @@ LEVEL_TEXT = (
 LEVEL_NOTE = "Trusted: the stand-ins for multiprocessing.Process / Manager / cpu_count (stratum deaths: liveness = fault plan, the worker main is not executed; stratum ppr-live-workers: a worker is a simulated process executing the real worker main), the capacity rule per runner as documented in docs/reference/runners.md and config_runner.py. Pickling of apps / tasks across spawn is not exercised."
 MINIMIZE = None
 RULE = (
-    "one run = runner in {MultiThreadRunner, PersistentProcessRunner, ProcessRunner} x pool size 1-4 x enforce on/off x queue empty/loaded x "
+    "one run = runner in {MultiThreadRunner, PersistentProcessRunner, ProcessRunner} x pool size 1-4 x enforce on/off x queue empty/loaded (ProcessRunner: also a re-dispatch of a recovered invocation to a second worker while the first lives) x "
     "4-10 rounds of (death burst, 1-2 iterations); non-trivial = at least one burst killed a worker; distinct = hash of configuration + death sequence."
 )
 ASSUMPTIONS = [
@@ -55,7 +55,7 @@ ASSUMPTIONS = [
 ]
 REAL = ["MultiThreadRunner / PersistentProcessRunner / ProcessRunner: on_start, runner_loop_iteration, get_active_child_runner_ids", "BaseRunner._report_child_runner_heartbeats", "SQLite orchestrator (heartbeats, claims)", "broker"]
 STUBBED = ["multiprocessing.Process / Manager / cpu_count (stand-ins)", "worker main functions (not executed in stratum deaths; real persistent_process_main in stratum ppr-live-workers)", "clock"]
-PROBES = ["death_burst", "all_workers_died", "respawned", "heartbeat_reports", "work_not_finished_after_deaths"]
+PROBES = ["death_burst", "all_workers_died", "respawned", "heartbeat_reports", "work_not_finished_after_deaths", "same_invocation_in_two_workers"]
 
 
 class FakeProcess:
@@ -297,8 +297,12 @@ def run(seed: int, params: dict, replay: dict | None = None) -> dict:
         known_dead: set[str] = set()
         app.orchestrator.register_runner_heartbeats = hb
         n_jobs = 0
+        # ProcessRunner only: a short queue, so that an invocation recovered from a slow (still alive) worker is handed to a
+        # second worker of the same runner while the first one lives (pending recovery does exactly this to a worker that
+        # has not reached RUNNING within max_pending_seconds)
+        redispatch = kind == "PR" and loaded and size >= 2 and rng.random() < 0.5
         if loaded:
-            for i in range(size * 3 + 2):
+            for i in range(size if redispatch else size * 3 + 2):
                 t(i, 0)
                 n_jobs += 1
         runner._last_atomic_service_check_time = float("inf")
@@ -315,6 +319,29 @@ def run(seed: int, params: dict, replay: dict | None = None) -> dict:
 
         iteration()
         killed_any = False
+        if redispatch:
+            from pynenc.invocation.status import InvocationStatus
+            from pynenc.runner.runner_context import RunnerContext
+
+            held = [(rid, info) for rid, info in runner.child_runner_ids.items() if info.process.is_alive()]
+            if len(held) >= 2:
+                (rid1, info1), (rid2, info2) = rng.sample(held, 2)
+                rec_ctx = RunnerContext(runner_cls="SimRunner", runner_id="recovery")
+                try:
+                    app.orchestrator.set_invocation_status(info1.invocation_id, InvocationStatus.PENDING_RECOVERY, rec_ctx)
+                    app.orchestrator.reroute_invocations({info1.invocation_id}, rec_ctx)
+                    info2.process.die()  # frees one slot: the next iteration hands the recovered invocation to a new worker
+                    known_dead.add(rid2)
+                    killed_any = True
+                    iteration()
+                    bump("probe.same_invocation_in_two_workers", int(sum(1 for i in runner.child_runner_ids.values() if i.invocation_id == info1.invocation_id) >= 2))
+                    trace.append(("redispatch", 1))
+                    # keep the queue loaded for the final capacity check
+                    for i in range(size + 2):
+                        t(200 + i, 0)
+                        n_jobs += 1
+                except Exception as e:  # noqa: BLE001  (the held invocation had moved on: nothing to recover)
+                    trace.append(("redispatch-skipped", type(e).__name__))
         for rnd in range(rng.randint(4, 10)):
             procs = [(rid, (info.process if kind == "PR" else info)) for rid, info in runner.child_runner_ids.items()]
             alive = [(rid, p) for rid, p in procs if p.is_alive()]
